@@ -23,6 +23,8 @@ deriving Repr, DecidableEq, Inhabited
 
 /-- what the outside world can see -/
 inductive Ev where
+  /-- `recv` delivered a datagram of `n` bytes from `src` -/
+  | rx (src : Addr) (n : Nat)
   | tx (to : Addr) (bytes : Bytes)
   | txFail (to : Addr)
   | newFlow (flow : Nat) (alg : Nat) (info : Info) (handleSid : Nat)
@@ -188,6 +190,12 @@ def lastSf : List Rx → Option Nat
   | .sf k :: rest => (lastSf rest).orElse fun _ => some k
   | _ :: rest => lastSf rest
 
+/-- one `rx` event per datagram `recv` delivered among the passed script items -/
+def rxEvents : List Rx → List Ev
+  | [] => []
+  | .dgram a d :: rest => .rx a (d.take 1024).length :: rxEvents rest
+  | _ :: rest => rxEvents rest
+
 /-- flows still alive when `run_inner` returns are dropped (before the backend, which then closes) -/
 def shutdown {σ : Type} (st : St σ) : List Ev :=
   dropAll (st.flows.flatMap fun p => p.2)
@@ -210,7 +218,8 @@ def loopStep {σ : Type} (cfg : Cfg) (pol : Policy σ) (b : Backend) (rx : List 
   match next b rx with
   | .panic => .panic
   | .err => .err
-  | .ok (none, _, _) => .ok (.finished (if endedByStop b rx then .ok else .err) st [])
+  | .ok (none, _, rx') =>
+    .ok (.finished (if endedByStop b rx then .ok else .err) st (rxEvents (rx.take (rx.length - rx'.length))))
   | .ok (some (msg, addr), b', rx') =>
     let passed := rx.take (rx.length - rx'.length)
     let st := match lastSf passed with
@@ -219,8 +228,8 @@ def loopStep {σ : Type} (cfg : Cfg) (pol : Policy σ) (b : Backend) (rx : List 
     match step cfg pol st addr msg with
     | .panic => .panic
     | .err => .err
-    | .ok (.cont st' evs) => .ok (.more b' rx' st' evs)
-    | .ok (.fail st' evs) => .ok (.finished .err st' evs)
+    | .ok (.cont st' evs) => .ok (.more b' rx' st' (rxEvents passed ++ evs))
+    | .ok (.fail st' evs) => .ok (.finished .err st' (rxEvents passed ++ evs))
 
 /-- `run_inner` after the programs have been compiled: the trace and the result -/
 def runLoop {σ : Type} (cfg : Cfg) (pol : Policy σ) : Nat → Backend → List Rx → St σ → List Ev → Out (List Ev × Res)
